@@ -126,9 +126,13 @@ class Harness:
         return w
 
     def ops(self, w):
-        return [['observe']] + [o for o in self._ops if (o[0] == 'add') != (o[1] in w.order)]
+        return [['observe']] + ([['complete']] if w.model.is_running() else []) + \
+            [o for o in self._ops if (o[0] == 'add') != (o[1] in w.order)]
 
     def apply(self, w, op):
+        if op[0] == 'complete':
+            w.model.complete()        # queries on the environment of a finished model (post-run analysis) work as before
+            return
         if op[0] == 'observe':
             # plain reads as an operation: every query once, picks and shuffles with the model's own generator, the
             # returned lists vandalised - whatever the library remembers from this must not show in later answers
@@ -286,7 +290,7 @@ class Harness:
         return self.cn(w.model, [w.agents[k] for k in self.keys])
 
     def refstate(self, w):
-        return tuple(w.order)
+        return (tuple(w.order), w.model.is_running())
 
     def outcome(self, w):
         return w.last
@@ -350,7 +354,105 @@ def in_system_case(case):
     return 7 * 16
 
 
+def class_churn_case(case):
+    """Component classes come and go (defined, used in a model, dropped, garbage collected); a template naming a type
+    nobody has matches nobody, one naming a type somebody has matches exactly those agents."""
+    import gc
+    from mc.engine.seams import reset_library
+    reset_library()
+    keep = []
+    n = 0
+    for r in range(case['rounds']):
+        m = Core.Model(seed=r)
+        env = m.environment
+        # an early class used only by a throw-away agent, then a class the resident agents carry
+        E = type(f'Early{r}', (Core.Component,), {})
+        tmp = Core.Agent('tmp', m)
+        tmp.add_component(E(tmp, m))
+        K = type(f'Keep{r}', (Core.Component,), {})
+        a, b = Core.Agent('a', m), Core.Agent('b', m)
+        a.add_component(K(a, m))
+        b.add_component(K(b, m))
+        env.add_agent(a)
+        env.add_agent(b)
+        del tmp, E
+        gc.collect()            # the early class is gone; the residents' class lives on
+        N = type(f'New{r}', (Core.Component,), {})         # defined afterwards; nobody carries it yet
+        for stage in ('nobody has N', 'b has N'):
+            if stage == 'b has N':
+                b.add_component(N(b, m))
+            exp_n = ['b'] if stage == 'b has N' else []
+            for tmpl, exp in (((N,), exp_n), ((K,), ['a', 'b']), ((K, N), exp_n), ((N, K), exp_n)):
+                got = [x.id for x in env.get_agents(*tmpl)]
+                n += 1
+                if got != exp:
+                    raise Violation(f'round {r} ({stage}): template {[t.__name__ for t in tmpl]} after an earlier '
+                                    f'component class was garbage collected', expected=exp, observed=got)
+                pick = env.get_random_agent(*tmpl)
+                if (pick is None) != (not exp) or (pick is not None and pick.id not in exp):
+                    raise Violation(f'round {r} ({stage}): random pick for template {[t.__name__ for t in tmpl]}',
+                                    expected=exp, observed=getattr(pick, 'id', None))
+        if r % 2:
+            keep.append((m, K))        # some models and classes stay alive, others are dropped
+        del m, env, a, b, K, N
+        gc.collect()
+    return n
+
+
+def detached_env_case(case):
+    """An environment that is not (or no longer) the model's current one answers queries about its OWN agents as they
+    are now - also after components were attached / detached / tags changed following an earlier query."""
+    from mc.engine.seams import reset_library
+    reset_library()
+    m = Core.Model(seed=1)
+    if case['how'] == 'second':
+        env = Core.Environment(m)
+    elif case['how'] == 'replaced':
+        env = m.environment
+        m.set_environment(Core.Environment(m))
+    else:
+        env = Core.Environment(None)
+        env.set_model(m)
+    a, b = Core.Agent('a', m), Core.Agent('b', m, tag=1)
+    a.add_component(X(a, m))
+    env.add_agent(a)
+    env.add_agent(b)
+
+    def ask(what):
+        for tmpl in ((), (X,), (Y,), (X, Y)):
+            for tag in (None, 0, 1):
+                kw = {} if tag is None else {'tag': tag}
+                exp = [x.id for x in (a, b) if all(t in x for t in tmpl) and (tag is None or x.tag == tag)]
+                got = [x.id for x in env.get_agents(*tmpl, **kw)]
+                if got != exp:
+                    raise Violation(f'{case["how"]} environment, {what}: template {[t.__name__ for t in tmpl]} tag {tag}',
+                                    expected=exp, observed=got)
+                sh = sorted(x.id for x in env.shuffle(*tmpl, **kw))
+                if sh != sorted(exp):
+                    raise Violation(f'{case["how"]} environment, {what}: shuffle', expected=exp, observed=sh)
+    ask('at first')
+    b.add_component(X(b, m))
+    ask('after b got X')
+    a.add_component(Y(a, m))
+    a.remove_component(X)
+    ask('after a got Y and lost X')
+    b.tag = 0
+    ask('after b was re-tagged')
+    return 4 * 12
+
+
 def run(ctx):
+    extra = [{'leg': 'class_churn', 'rounds': 40}] + [{'leg': 'detached_env', 'how': h} for h in
+                                                      ('second', 'replaced', 'modelless')]
+    for case in extra:
+        ctx.traces += 1
+        try:
+            fn = class_churn_case if case['leg'] == 'class_churn' else detached_env_case
+            ctx.transitions += hbfs._guard(fn, case)
+        except Violation as v:
+            ctx.report(case, v)
+            return
+    ctx.leg('class_churn_and_detached_env', cases=len(extra))
     for p in POOLS:
         case = {'leg': 'in_system', 'pool': p}
         ctx.traces += 1
@@ -361,17 +463,25 @@ def run(ctx):
             return
     ctx.leg('in_system', pools=len(POOLS))
     pools = ['p1', 'p2'] if ctx.tier == 'quick' else list(POOLS)
-    for p in pools:
-        h = Harness(p, ctx.seed)
-        r = hbfs.explore(ctx, h, p, max_depth=30, procs=ctx.procs, case_extra={'seed': ctx.seed})
-        ctx.leg(p, **r)
-        if not r.get('fixpoint'):
-            ctx.cap(f'{p}: fixpoint not reached')
-        if ctx.violations:
-            return
+    from mc.engine import par
+    par.pmap(ctx, explore_pool, pools, procs=ctx.procs)
+
+
+def explore_pool(ctx, p):
+    h = Harness(p, ctx.seed)
+    r = hbfs.explore(ctx, h, p, max_depth=30, procs=1, case_extra={'seed': ctx.seed})
+    ctx.leg(p, **r)
+    if not r.get('fixpoint') and not r.get('aborted'):
+        ctx.cap(f'{p}: fixpoint not reached')
 
 
 def replay(case):
+    if case['leg'] == 'class_churn':
+        hbfs._guard(class_churn_case, case)
+        return
+    if case['leg'] == 'detached_env':
+        hbfs._guard(detached_env_case, case)
+        return
     if case['leg'] == 'in_system':
         hbfs._guard(in_system_case, case)
         return
